@@ -9,7 +9,7 @@ import (
 	"os"
 	"sort"
 	"strings"
-	"time"
+	_ "time"
 
 	"golang.org/x/tools/go/ssa"
 )
@@ -273,6 +273,11 @@ func (c *Ctx) enterBlock(fr *frame, b *ssa.BasicBlock, es []edgeState) *State {
 
 const maxUnroll = 20000
 
+// initStepBudget bounds the symbolic execution of one init function by a
+// deterministic instruction count (never by wall-clock time: the outcome of a
+// check must not depend on machine load).
+const initStepBudget = 1500000
+
 var traceBlocks = os.Getenv("GOVC_TRACE") != ""
 
 func (c *Ctx) runLoop(fr *frame, l *loopInfo) {
@@ -303,9 +308,7 @@ func (c *Ctx) runLoop(fr *frame, l *loopInfo) {
 		ok := true
 		for iter := 0; ; iter++ {
 			c.unrolled++
-			if c.W.initMode && c.unrolled%8 == 0 && time.Since(c.started) > 2*time.Second {
-				unsup("initialiser too expensive to execute symbolically (loop %d of %s)", l.ord, fr.fn.Name())
-			}
+
 			if (c.unrolled > maxUnroll || iter > 4096) && !c.W.initMode || iter > 200000 {
 				ok = false
 				break
@@ -368,6 +371,10 @@ func (c *Ctx) execBlock(fr *frame, b *ssa.BasicBlock, st *State) {
 	}
 	for _, in := range b.Instrs {
 		c.curExecFrame = fr
+		c.steps++
+		if c.W.initMode && c.steps > initStepBudget {
+			unsup("initialiser too expensive to execute symbolically (more than %d SSA instructions, in %s)", initStepBudget, fr.fn.Name())
+		}
 		if _, ok := in.(*ssa.Phi); ok {
 			continue
 		}
